@@ -114,6 +114,124 @@ theorem segLoad_hand (c : Cls) (enc : Enc) (tr : List Trans) (ls : LoadSt) (hdrO
        else (ls, g, true)) := by
   cases c <;> rfl
 
+/-! ### `section_impl<T>::load_data` -/
+
+theorem sec32_load_data_complete_eq : sec32_load_data_complete = sec64_load_data_complete := rfl
+
+@[simp] theorem secNeedsLoad_val (c : Cls) (dn : Bool) (ty : BitVec 32) :
+    secNeedsLoad c dn ty = (dn && !isNullOrNobitsTy ty) := by
+  have e0 : SHT_NULL = 0 := rfl
+  have e8 : SHT_NOBITS = 8 := rfl
+  cases c <;>
+  · simp only [secNeedsLoad, sec32_load_data_need, sec64_load_data_need, isNullOrNobitsTy, e0, e8]
+    cases dn <;> simp [bne, BEq.comm]
+
+@[simp] theorem secSizeT_val (c : Cls) (size : BitVec 64) : secSizeT c size = sec64_load_data_sizet size := by
+  cases c <;> rfl
+@[simp] theorem secAllocN_val (c : Cls) (size : BitVec 64) : secAllocN c size = sec64_load_data_alloc size := by
+  cases c <;> rfl
+@[simp] theorem secSeekTo_val (c : Cls) (off : BitVec 64) : secSeekTo c off = off := by cases c <;> rfl
+@[simp] theorem secReadN_val (c : Cls) (size : BitVec 64) : secReadN c size = size := by cases c <;> rfl
+@[simp] theorem secIncomplete_val (c : Cls) (b : Bool) : secIncomplete c b = !b := by cases c <;> rfl
+
+/-- `(0 != size) && (nullptr != data)` -/
+@[simp] theorem secDoRead_val (c : Cls) (size : BitVec 64) (dn : Bool) :
+    secDoRead c size dn = (size != 0 && !dn) := by
+  cases c <;>
+  · simp only [secDoRead, sec32_load_data_do_read, sec64_load_data_do_read]
+    cases dn <;> simp [bne, BEq.comm]
+
+/-- `if (size != 0) return false;` -/
+@[simp] theorem secAllocFailed_val (c : Cls) (size : BitVec 64) : secAllocFailed c size = (size != 0) := by
+  cases c <;> simp [secAllocFailed, sec32_load_data_alloc_failed, sec64_load_data_alloc_failed]
+
+/-- `(nullptr != data) || (SHT_NULL == get_type()) || (SHT_NOBITS == get_type())` -/
+@[simp] theorem secLoadedAfter_val (c : Cls) (dn : Bool) (ty : BitVec 32) :
+    secLoadedAfter c dn ty = (!dn || isNullOrNobitsTy ty) := by
+  have e0 : SHT_NULL = 0 := rfl
+  have e8 : SHT_NOBITS = 8 := rfl
+  cases c <;>
+  · simp only [secLoadedAfter, sec32_load_data_loaded, sec64_load_data_loaded, isNullOrNobitsTy, e0, e8]
+    cases dn <;> simp [BEq.comm]
+
+/-- `static_cast<Elf_Xword>(pstream->gcount()) == size` for a count that fits 64 bits -/
+theorem load_data_complete_val (g : Nat) (n : BitVec 64) (hg : g < 18446744073709551616) :
+    sec64_load_data_complete (BitVec.ofNat 64 g) n = (g == n.toNat) := by
+  unfold sec64_load_data_complete
+  by_cases h : g = n.toNat
+  · subst h; simp
+  · have : BitVec.ofNat 64 g ≠ n := by
+      intro hh
+      have := congrArg BitVec.toNat hh
+      simp only [BitVec.toNat_ofNat, Nat.reducePow] at this
+      rw [Nat.mod_eq_of_lt hg] at this
+      exact h this
+    rw [beq_eq_false_iff_ne.mpr this, beq_eq_false_iff_ne.mpr h]
+
+theorem readNeg_gcount (s : IStream) : s.readNeg.gcount = 0 := by
+  unfold IStream.readNeg; split <;> rfl
+
+/-- the isolated read with `is_complete` in hand form -/
+theorem isolatedRead_hand (st : IStream) (off n : BitVec 64) :
+    isolatedRead st off n =
+      (let st1 := (st.clear).seekg off.toInt
+       let (st2, got, complete) :=
+         if n.toInt < 0 then (st1.readNeg, ([] : Bytes), false)
+         else
+           let r := st1.read n.toNat
+           (r.1, r.2, r.1.gcount == n.toNat)
+       ({ st2 with eof := st2.eof || st.eof, fail := st2.fail || st.fail }, got, complete)) := by
+  unfold isolatedRead
+  simp only []
+  split
+  · rename_i hneg
+    simp only [readNeg_gcount]
+    have : sec64_load_data_complete (BitVec.ofNat 64 0) n = false := by
+      rw [load_data_complete_val 0 n (by decide)]
+      have : n.toNat ≠ 0 := by
+        intro h0
+        have : n = 0 := BitVec.eq_of_toNat_eq (by simpa using h0)
+        subst this
+        simp at hneg
+      simp [Ne.symm this]
+    rw [this]
+  · have hle := read_gcount_le ((st.clear).seekg off.toInt) n.toNat
+    have := n.isLt
+    simp only []
+    rw [load_data_complete_val _ n (by omega)]
+
+/-- `section_impl::load_data` with its generated conditions in hand form -/
+theorem secLoadData_hand (c : Cls) (tr : List Trans) (ls : LoadSt) (b : SecBuf) :
+    secLoadData c tr ls b =
+      (let off : BitVec 64 := BitVec.ofInt 64 (trApply tr b.offset.toInt)
+       let size := b.size
+       let offGt := match c with
+         | .c32 => sec32_load_data_off_gt off b.streamSize
+         | .c64 => sec64_load_data_off_gt off b.streamSize
+       if offGt then (ls, b, false) else
+       let sizeGt := match c with
+         | .c32 => sec32_load_data_size_gt size b.streamSize off
+         | .c64 => sec64_load_data_size_gt size b.streamSize off
+       if sizeGt then (ls, b, false) else
+       if b.data.isNone && !isNullOrNobitsTy b.stype then
+         if sec64_load_data_sizet size then (ls, b, false) else
+         let n := (sec64_load_data_alloc size).toNat
+         let ls := { ls with allocs := ls.allocs ++ [n] }
+         if size != 0 then
+           let (st, got, complete) := isolatedRead ls.st off size
+           let ls := { ls with st := st }
+           if !complete then (ls, { b with data := none, dataSize := 0 }, false)
+           else (ls, { b with data := some (got ++ [0]), dataSize := size, isLoaded := true }, true)
+         else (ls, { b with data := some (alloc 1), dataSize := 0, isLoaded := true }, true)
+       else
+         let l := b.data.isSome || isNullOrNobitsTy b.stype
+         (ls, { b with isLoaded := l }, l)) := by
+  have hsome : (!b.data.isNone) = b.data.isSome := by cases b.data <;> rfl
+  unfold secLoadData
+  simp only [secNeedsLoad_val, secSizeT_val, secAllocN_val, secDoRead_val, secSeekTo_val, secReadN_val,
+    secIncomplete_val, secAllocFailed_val, secLoadedAfter_val, hsome, Bool.not_false, Bool.and_true]
+  cases c <;> (repeat' split) <;> first | rfl | (simp_all; done)
+
 /-! ### `segment_impl<T>::load_data` -/
 
 theorem seg32_load_data_ok_eq : seg32_load_data_ok = seg64_load_data_ok := rfl
